@@ -134,7 +134,7 @@ def build_session(rng, tmp, nops, metrics):
                         elif kind == "knn":
                             m_.fit(Xe_, yy_, Xe_[:4] + 0.05, yy_[:4])
                         else:
-                            m_.fit(Xe_, yy_)
+                            m_.fit(Xe_[:3], yy_[:3])     # a training set smaller than the k range: whatever fit does about that stays local to that fit
                         m_.predict(Xe_[:3] + 0.01)
                     except Exception:
                         pass
